@@ -1,0 +1,21 @@
+//go:build verif
+
+// Contracts for package network, checked by /verif/govc (comment-only file).
+package network
+
+// The quorum function of the block-fetch call (C12/C13: "a block fetched by hash is the block
+// that hash names"): a reply is accepted only if the block decoded from it carries exactly
+// the requested hash; the reply handed back is that very reply; without such a reply the
+// fetch fails. The ghost trace `qfh` records the decoded blocks whose hash was compared.
+//@ pure func qblk(i int) *hotstuff.Block = asptr(traceat(qfh, 0, i), hotstuff.Block)
+//@ func (qspec).RequestBlockQF property C12,C13
+//@   requires (in != nil ==> len(in.Hash) <= 268435456) && (forall k uint32 :: {replies[k]} has(replies, k) ==> hotstuffpb.wblock(replies[k]))
+//@   ghost at call Hash :: emit qfh(op0)
+//@   ensures [one-of-the-replies] result1 ==> result0 != nil && (exists k uint32 :: {replies[k]} has(replies, k) && replies[k] == result0)
+//@   ensures [compared] result1 ==> tracelen(qfh) > old(tracelen(qfh)) && qblk(tracelen(qfh) - 1) != nil
+//@   ensures [hash-checked] result1 && in != nil ==> qblk(tracelen(qfh) - 1).hash == old(afrom(content(in.Hash), len(in.Hash), hotstuff.Hash{}))
+//@   ensures [hash-checked-absent] result1 && in == nil ==> qblk(tracelen(qfh) - 1).hash == hotstuff.Hash{}
+//@   ensures [decoded-from-that-reply] result1 ==> qblk(tracelen(qfh) - 1).view == result0.View && qblk(tracelen(qfh) - 1).proposer == result0.Proposer && qblk(tracelen(qfh) - 1).parent == afrom(content(result0.Parent), len(result0.Parent), hotstuff.Hash{}) && qblk(tracelen(qfh) - 1).batch == result0.Commands
+//@   ensures [miss] !result1 ==> result0 == nil
+//@   loop 0 invariant [events] tracelen(qfh) >= old(tracelen(qfh))
+//@   modifies trace(qfh), alloc
